@@ -275,4 +275,32 @@ func init() {
 		Assumptions:  []string{"FromBuiltinStatefulSet (a JSON round trip) is replaced by a field-copying model during symbolic execution; the real function runs in the native replay", "the pod and claim clients are not implemented by the fakes: any call to them crashes the harness"},
 		OutsideClaim: []string{"more than two interruptions", "arbitrary selectors and label sets (four fixed shapes)"},
 	})
+
+	register(&spec{
+		ID: "C19", Title: "Client-side helpers are lossless",
+		Runs: []runSpec{
+			{Name: "annotations", Pkg: pkgHelper, Func: "VH_Annotations", Quick: []int{2}, Thorough: []int{3},
+				Bounds: func(a []int) string {
+					return fmt.Sprintf("slot sets of up to %d arbitrary int32 (plus up to 2 added ones), annotation map nil / empty / with two unrelated keys, nil and empty sets, the pause flag set/unset/re-set", a[0])
+				},
+				Asserts: []string{"every written slot is read back", "nothing but the written slots is read back", "union contains the added slots", "other annotations are untouched by the slot helpers", "pause flag reads back true", "un-pausing removes the annotation"}},
+			{Name: "defaulting-area0", Pkg: pkgAppsV1, Func: "VH_Defaults", Quick: []int{0}, Thorough: []int{0},
+				Bounds:  func(a []int) string { return "SetObjectDefaults_StatefulSet twice on an object varied over: set-level fields (policy/strategy strings in {\"\", valid, \"Foo\"}, rollingUpdate nil / empty / arbitrary int32 partition, replicas and history limit nil or arbitrary int32)" },
+				Asserts: []string{"defaulting twice equals defaulting once"}, Covers: []string{"defaulted"}},
+			{Name: "defaulting-area1", Pkg: pkgAppsV1, Func: "VH_Defaults", Quick: []int{1}, Thorough: []int{1},
+				Bounds:  func(a []int) string { return "SetObjectDefaults_StatefulSet twice on an object varied over: pod-level fields (DNS/restart policy, scheduler, security context, arbitrary int64 grace period)" },
+				Asserts: []string{"defaulting twice equals defaulting once"}, Covers: []string{"defaulted"}},
+			{Name: "defaulting-area2", Pkg: pkgAppsV1, Func: "VH_Defaults", Quick: []int{2}, Thorough: []int{2},
+				Bounds:  func(a []int) string { return "SetObjectDefaults_StatefulSet twice on an object varied over: one volume of each of 10 source kinds incl. none (defaults to EmptyDir), optional modes" },
+				Asserts: []string{"defaulting twice equals defaulting once"}, Covers: []string{"defaulted"}},
+			{Name: "defaulting-area3", Pkg: pkgAppsV1, Func: "VH_Defaults", Quick: []int{3}, Thorough: []int{3},
+				Bounds:  func(a []int) string { return "SetObjectDefaults_StatefulSet twice on an object varied over: container basics (3 image literals, pull policy, termination fields, port with arbitrary int32 ports and protocol) with and without hostNetwork and an init container" },
+				Asserts: []string{"defaulting twice equals defaulting once"}, Covers: []string{"defaulted"}},
+			{Name: "defaulting-area4", Pkg: pkgAppsV1, Func: "VH_Defaults", Quick: []int{4}, Thorough: []int{4},
+				Bounds:  func(a []int) string { return "SetObjectDefaults_StatefulSet twice on an object varied over: container env fieldRef, probes with arbitrary int32 timings and HTTP/gRPC actions, lifecycle hook" },
+				Asserts: []string{"defaulting twice equals defaulting once"}, Covers: []string{"defaulted"}},
+		},
+		Assumptions:  []string{"encoding/json round trip of []int32 is lossless (std library contract)", "resource lists are nil (quantity rounding uses arbitrary-precision decimals)"},
+		OutsideClaim: []string{"clause (a) of the statement - a built-in StatefulSet written through the hijack client and read back is unchanged, conversion never fails - is a statement about encoding/json over the whole schema and is not decided (DESIGN.md section 6)", "template content beyond the modelled fields"},
+	})
 }
